@@ -4,6 +4,7 @@ import (
 	"encoding/json"
 	"flag"
 	"fmt"
+	"golang.org/x/tools/go/ssa"
 	"os"
 	"path/filepath"
 	"sort"
@@ -75,6 +76,8 @@ func main() {
 		os.Exit(cmdDump(os.Args[2:]))
 	case "lock":
 		os.Exit(cmdLock(os.Args[2:]))
+	case "loops":
+		os.Exit(cmdLoops(os.Args[2:]))
 	default:
 		fmt.Fprintln(os.Stderr, "unknown command", os.Args[1])
 		os.Exit(2)
@@ -238,7 +241,7 @@ func cmdVC(args []string) int {
 		if pat != "" && !strings.Contains(fn.String(), pat) {
 			continue
 		}
-		tr := e.Verify(fn, cs[i])
+		tr := e.Verify(fn, cs[i], *prop)
 		trs = append(trs, tr)
 		if *smtDir != "" {
 			os.MkdirAll(*smtDir, 0o755)
@@ -307,7 +310,7 @@ func runCheck(prop, tier string) (*checkRun, error) {
 	fns, cs, missing := e.functionsFor(prop)
 	var trs []*Tr
 	for i, fn := range fns {
-		trs = append(trs, e.Verify(fn, cs[i]))
+		trs = append(trs, e.Verify(fn, cs[i], prop))
 	}
 	var immProblems []string
 	for _, b := range e.checkImmutables() {
@@ -618,4 +621,51 @@ func coverStatus(tr *Tr, timeout int) string {
 		return "no-returns"
 	}
 	return st
+}
+
+// cmdLoops prints loop ordinals, header phis and the calls in each loop body (help for writing invariants).
+func cmdLoops(args []string) int {
+	e, err := LoadEngine(repoDir(), filepath.Join(verifDir, "specs"))
+	if err != nil {
+		fmt.Fprintln(os.Stderr, err)
+		return 2
+	}
+	for k, fn := range e.funcs {
+		if len(args) > 0 && !strings.Contains(k, args[0]) {
+			continue
+		}
+		tr := &Tr{eng: e, top: fn, declared: map[string]bool{}, sorts: map[string]string{}, obls: map[string]*Obl{}, init: &State{H: map[string]string{}}, used: map[string]bool{}}
+		f := tr.newFrame(fn, nil)
+		var hs []int
+		for h := range f.loops {
+			hs = append(hs, h)
+		}
+		sort.Ints(hs)
+		if len(hs) == 0 {
+			continue
+		}
+		fmt.Println(k)
+		for _, h := range hs {
+			li := f.loops[h]
+			var body []int
+			for b := range li.body {
+				body = append(body, b)
+			}
+			sort.Ints(body)
+			fmt.Printf("  loop %d: header b%d (%s) body %v\n", li.ordinal, h, li.header.Comment, body)
+			for _, in := range li.header.Instrs {
+				if phi, ok := in.(*ssa.Phi); ok {
+					fmt.Printf("      phi %s %q : %s\n", phi.Name(), phi.Comment, phi.Type())
+				}
+			}
+			for _, b := range body {
+				for _, in := range fn.Blocks[b].Instrs {
+					if nm, ok := f.callName[in]; ok {
+						fmt.Printf("      b%d call %s\n", b, nm)
+					}
+				}
+			}
+		}
+	}
+	return 0
 }
